@@ -381,7 +381,7 @@ def dsl_documents(spec) -> dict:
     comps = []
     for t in spec["templates"]:
         params = [{"name": "message"}, {"name": "other", "default": "nothing"}]
-        command = {"executable": "echo", "arguments": "%(message)s %(other)s"}
+        command = {"executable": "echo", "arguments": "%(message)s other=%(other)s"}
         if t["env"] == "none":
             command["environment"] = "none"
         elif t["env"] is not None:
